@@ -86,6 +86,11 @@ class ThresholdOpenList:
             def _quota_fractional(votes: int, seats: int) -> Fraction:
                 return wrapped(votes, seats) * quota_fraction
 
+            # saved as the quota function given: quota_fraction is saved on
+            # its own and applied again on loading
+            _quota_fractional.to_dict = (
+                lambda: votelib.persist.serialize_value(wrapped)
+            )
             self.quota_function = _quota_fractional
         elif quota_function is not None:
             self.quota_function = votelib.component.quota.construct(
